@@ -156,9 +156,13 @@ func c15Ops(cfg core.Cfg) []core.Op {
 		up(core.Call{F: "PutTS", B: bKV, K: "c", V: "t", TTL: 5, TS: -4}),
 		up(core.Call{F: "Delete", B: bKV, K: "a"}),
 		core.Op{Kind: "update", Calls: []core.Call{{F: "Put", B: bKV, K: "a", V: "failed"}, {F: "Put", B: bKV, K: "ab", Big: int(cfg.Seg) + 1}}},
+		// a committed transaction of three records: with two records per segment it always straddles
+		// a segment boundary
+		up(core.Call{F: "Put", B: bKV, K: "a", V: "m1"}, core.Call{F: "Put", B: bKV, K: "ab", V: "m2"}, core.Call{F: "Put", B: bKV, K: "d", V: "m3"}),
 	}
 	if cfg.Mode == core.KV {
 		ops = append(ops,
+			up(core.Call{F: "ZAdd", B: bZ, K: "c", X: 3, V: "vc"}, core.Call{F: "ZAdd", B: bZ, K: "d", X: 4, V: "vd"}, core.Call{F: "ZAdd", B: bZ, K: "a", X: 5, V: "va5"}),
 			up(core.Call{F: "RPush", B: bL, K: "k", Vs: []string{"a"}}),
 			up(core.Call{F: "RPush", B: bL, K: "k", Vs: []string{"b"}}),
 			up(core.Call{F: "LPop", B: bL, K: "k"}),
